@@ -43,3 +43,48 @@ def add_to(chk, r, per_opt, **kw):
     if st:
         n, dis, keys, samples = st
         chk.corr(NAME, n, dis, keys, samples)
+
+
+# ----------------------------------------------------------------------------- GridSearchOptimizer, complete model
+
+GRID_NAME = ("whole optimizer GridSearchOptimizer (outer + inner diagonal/orthogonal object): GFO.Model.GridBackend driven through the driver model "
+             "by the recorded constraint verdicts / fallback positions must emit the same positions, rows, trace, best result, both trackers, "
+             "pointer and direction and consume the tape exactly")
+
+
+def grid_specs(r, n, constraint_p=0.4):
+    out = []
+    for _ in range(n):
+        sp = bkgen.scenario(r, "GridSearchOptimizer", constraint_p=constraint_p, sizes=[1, 2, 3, 4, 5, 7, 10])
+        size = gen.space_size(sp["space"])
+        divs = [k for k in range(1, size + 1) if size % k == 0]
+        sp["opt_kwargs"]["step_size"] = r.choice(divs + [1, 1, r.choice([2, 3, 5, 7])])
+        sp["opt_kwargs"]["direction"] = r.choice(["diagonal", "orthogonal"])
+        sp["calls"] = [dict(c, n_iter=c["n_iter"] + r.choice([0, 10, min(size, 120)])) for c in sp["calls"]]
+        out.append(sp)
+    return out
+
+
+def grid_stage(chk, r, n, **kw):
+    sps = grid_specs(r, n, **kw)
+    dis, keys, samples = [], set(), []
+    k = 0
+    for i in range(0, len(sps), 60):
+        for s, o in loc.run_batch(sps[i:i + 60], loc.run_grid_scenario):
+            k += 1
+            size = gen.space_size(s["space"])
+            steps = sum(c["n_iter"] for c in s["calls"])
+            keys.add((s["opt_kwargs"]["direction"], "divides" if size % s["opt_kwargs"]["step_size"] == 0 else "does-not-divide",
+                      bool(s.get("constraint")), "wraps" if steps > size else "first-pass", len(s["calls"])))
+            if o["diff"] is not None:
+                dis.append(dict(case=s, diff=o["diff"]))
+            elif len(samples) < 2:
+                samples.append(dict(kwargs=s["opt_kwargs"], tape_entries=o["tape_len"], model_last_line=o["got"][-1][:200]))
+    return k, dis, keys, samples
+
+
+def add_grid_to(chk, r, n, **kw):
+    st = chk.stage("whole-optimizer grid correspondence", grid_stage, chk, r, n, **kw)
+    if st:
+        k, dis, keys, samples = st
+        chk.corr(GRID_NAME, k, dis, keys, samples)
